@@ -32,6 +32,8 @@ type TypeOpts struct {
 	// IgnoreAlone: sibling fields tagged gomacro:"ignore" WITHOUT json:"-" (still serialised by
 	// encoding/json; used by C02 only, TypeScript/Dart drop such keys by design)
 	IgnoreAlone bool
+	// Depth of anonymous container nesting in field types (default 2)
+	Depth int
 	// NoRoot: place the module outside any go/src/ directory (affects the Dart linker only)
 }
 
@@ -832,7 +834,11 @@ func (g *gen) makeStructs() {
 				fname = g.pick(fieldStems) + fmt.Sprint(j)
 			}
 			used[fname] = true
-			f := &Field{Name: fname, Type: g.fieldType(2)}
+			depth := 2
+			if g.opts.Depth > 0 {
+				depth = g.opts.Depth
+			}
+			f := &Field{Name: fname, Type: g.fieldType(depth)}
 			isUnionish := f.Type.K == TRef && (f.Type.Ref.Kind == DUnion)
 			switch x := g.r.Intn(30); {
 			case x == 0 && !isUnionish: // unexported sibling
@@ -924,6 +930,33 @@ func reachesSelf(from, target *Decl) bool { return from == target }
 // recursive shapes
 
 func (g *gen) makeRecursive() {
+	if g.pr(0.25) {
+		// a cycle of 3-4 structs through slices, maps and named slices
+		k := 3 + g.r.Intn(2)
+		var ds []*Decl
+		for i := 0; i < k; i++ {
+			ds = append(ds, g.add(&Decl{Name: g.fresh(fmt.Sprintf("Ring%c", 'A'+i)), Kind: DStruct}))
+		}
+		for i, d := range ds {
+			next := ds[(i+1)%k]
+			var t *TExpr
+			switch i % 3 {
+			case 0:
+				t = Slice(Ref(next))
+			case 1:
+				t = Map(Basic("string"), Ref(next))
+			default:
+				t = Slice(Slice(Ref(next)))
+			}
+			d.Fields = []*Field{{Name: "Tag" + d.Name, Type: Basic("int")}, {Name: "Next", Type: t}}
+			if g.pr(0.3) {
+				d.File = "other.go"
+			}
+			g.structs = append(g.structs, d)
+		}
+		g.p.Feature(fmt.Sprintf("recursive:cycle-of-%d", k))
+		return
+	}
 	switch g.r.Intn(5) {
 	case 0: // self through a slice
 		d := g.add(&Decl{Name: g.fresh("Tree"), Kind: DStruct})
